@@ -53,8 +53,15 @@ def limits_defaults(ctx, fu):
             wr.append((lhs['proj'][0]['name'], gs))
     limit_readers = {p for p, b2 in prog.bodies.items() if p.startswith('urdf::') and b2.kind != 'Closure' and '(f64, f64)' in b2.local_ty(0)}
     guarded = all(any(_reads_limits(g, limit_readers) for g, k in gs) for nme, gs in wr)
-    ctx.check(init_ok and guarded and len(wr) == 2, 'R20.2', 'no-limit-default', cj.where(jd[0], jd[1]), cj.path,
-              'a joint without <limit> must keep from = to = 0 (writes to from/to only when limits were read)', found='init=%s writes=%d guarded=%s' % (init_ok, len(wr), guarded))
+    by_value = None
+    if not (init_ok and guarded and len(wr) == 2) and not wr:
+        by_value = _limits_by_value(prog, cj, fields, limit_readers)
+    if by_value is not None:
+        ctx.check(by_value[0], 'R20.2', 'no-limit-default', cj.where(jd[0], jd[1]), cj.path,
+                  'a joint without <limit> must get from = to = 0, a joint with one the pair that was read: ' + by_value[1], found=by_value[1], detail='by value')
+    else:
+        ctx.check(init_ok and guarded and len(wr) == 2, 'R20.2', 'no-limit-default', cj.where(jd[0], jd[1]), cj.path,
+                  'a joint without <limit> must keep from = to = 0 (writes to from/to only when limits were read)', found='init=%s writes=%d guarded=%s' % (init_ok, len(wr), guarded))
     for name in ('to_robot', 'constraints'):
         b = util.find_one(ctx, suffix='urdf::URDFParameters::' + name)
         cs = [(bi, t2) for bi, t2 in b.calls() if cname(callee_name(t2)) == 'Constraints::new']
@@ -78,6 +85,64 @@ def limits_defaults(ctx, fu):
                   'a joint without limits (from = to = 0) must accept every angle, but the membership test answers %s' % sorted(map(str, res)), found=sorted(map(str, res)))
 
     return cj
+
+
+def _limits_by_value(prog, cj, fields, limit_readers):
+    """the limits are not patched into a JointData that starts at 0/0 but computed as one value
+    (`let (from, to) = if let Some(l) = limit { get_limits(l).unwrap_or_else(|e| {..; NO_LIMITS}) } else { NO_LIMITS }`):
+    every case of `from` / `to` must be the constant 0 or component 0 / 1 of what the limits reader returned."""
+    import itertools
+
+    def consts_in(t):
+        def f(x):
+            if not isinstance(x, tuple):
+                return x
+            if x[0] == 'const' and len(x) >= 4 and isinstance(x[2], str) and x[2] in prog.consts and x[1] != 'str':
+                return f(prog.const_term(x[2]))
+            y = (x[0],) + tuple(f(z) if isinstance(z, tuple) else z for z in x[1:])
+            if y[0] == 'fld' and isinstance(strip(y[1]), tuple) and strip(y[1])[0] == 'agg' and str(y[2]).isdigit() and int(y[2]) < len(strip(y[1])) - 2:
+                return strip(y[1])[2 + int(y[2])]
+            return y
+        return f(t)
+
+    def classify(r, k):
+        r = strip(consts_in(r))
+        if util.const_val(r) == 0.0:
+            return 'zero'
+        if isinstance(r, tuple) and r[0] == 'fld' and str(r[2]) == str(k):
+            u = strip(r[1])
+            if isinstance(u, tuple) and u[0] == 'call' and cname(u[1]) in ('Result::unwrap_or_else', 'Result::unwrap_or', 'Result::unwrap_or_default') and len(u) >= 3:
+                src = strip(u[2])
+                if isinstance(src, tuple) and src[0] == 'call' and src[1] in limit_readers:
+                    if cname(u[1]) == 'Result::unwrap_or_default':
+                        return 'read'
+                    fb = u[3]
+                    cb, caps = util.closure_of_term(prog, fb)
+                    if cb is not None:
+                        crv = [strip(consts_in(x[0])) for x in cb.return_values()]
+                        if all(isinstance(c, tuple) and c[0] == 'agg' and len(c) == 4 and util.const_val(c[2]) == 0.0 and util.const_val(c[3]) == 0.0 for c in crv):
+                            return 'read'
+                    else:
+                        c = strip(consts_in(fb))
+                        if isinstance(c, tuple) and c[0] == 'agg' and len(c) == 4 and util.const_val(c[2]) == 0.0 and util.const_val(c[3]) == 0.0:
+                            return 'read'
+            while isinstance(u, tuple) and u[0] in ('fld', 'as'):
+                u = strip(u[1])
+            if isinstance(u, tuple) and u[0] == 'call' and (u[1] in limit_readers or cname(u[1]) == 'Option::transpose'):
+                return 'read'
+        return 'other: ' + show(r, maxdepth=4)
+    seen = {}
+    for nm, k in (('from', 0), ('to', 1)):
+        x = fields[nm]
+        conds = util.branch_conditions(cj, x)[:4]
+        cls = set()
+        for combo in itertools.product((True, False), repeat=len(conds)):
+            r = util.peval(prog, util.resolve_case(cj, x, dict(zip(conds, combo))))
+            cls.add(classify(r, k))
+        seen[nm] = cls
+    bad = sorted(c for cs in seen.values() for c in cs if c.startswith('other'))
+    ok = not bad and all(cs == {'zero', 'read'} for cs in seen.values())
+    return ok, 'from: %s; to: %s' % (sorted(seen['from']), sorted(seen['to']))
 
 
 def angle_syntax(ctx, fu):
@@ -275,13 +340,14 @@ def run(ctx):
     for i, j, st in pp.stmts():
         lhs = st['lhs']
         if lhs['local'] == opl[0] and lhs['proj'] and lhs['proj'][0].get('name') == 'dof':
-            v = util.const_val(pp.rv_term(st['rv'], (i, j)))
-            for g, k, sw in pp.guard_terms(i):
-                g = strip(g)
-                if isinstance(g, tuple) and g[0] == 'call' and cname(g[1]) == 'HashMap::contains_key':
-                    key = strip(g[3])
-                    same_table = isinstance(key, tuple) and key[0] == 'idx' and util.const_val(key[2]) == 5 and strip(key[1]) in name_tables
-                    dof_writes[v] = (opw.truth(k), same_table)
+            for vt, vb in util.value_cases(pp, i, j, st):
+                v = util.const_val(vt)
+                for g, k, sw in pp.guard_terms(vb):
+                    g = strip(g)
+                    if isinstance(g, tuple) and g[0] == 'call' and cname(g[1]) == 'HashMap::contains_key':
+                        key = strip(g[3])
+                        same_table = isinstance(key, tuple) and key[0] == 'idx' and util.const_val(key[2]) == 5 and strip(key[1]) in name_tables
+                        dof_writes[v] = (opw.truth(k), same_table)
     okd = len(name_tables) == 1 and dof_writes.get(6) == (True, True) and dof_writes.get(5) == (False, True)
     ctx.check(okd, 'R20.4', 'dof-key', pp.where(0), pp.path,
               'dof must be 6 exactly when the joint named names[5] exists, names being the table the six slots are read through (explicit names included)',
